@@ -402,9 +402,14 @@ impl DrawCase {
             }
         }
     }
+    /// How far beyond the bounding box a primitive may paint. Filled shapes and 1-pixel lines
+    /// (Bresenham pixels never leave the closed box of the end points): 0. Strokes of width
+    /// >= 2 and stroke_rect: the stroke width (lenient; covers the rounding of the rotated
+    /// rectangle's corners).
     fn inflation(&self) -> i32 {
         match self.prim {
             Prim::FillRect | Prim::FillIter => 0,
+            Prim::DrawLine | Prim::DrawPolygon if self.width <= 1 => 0,
             _ => self.width as i32,
         }
     }
@@ -573,7 +578,7 @@ pub fn judge(case: &DrawCase, ex: Executed, loc: &mut Local) -> Vec<(String, Str
             p => p.name().to_string(),
         };
         fails.push((
-            format!("{site}: pixel changed outside the shape's bounding box inflated by the stroke width [{class}]"),
+            format!("{site}: pixel changed outside the shape's bounding box (plus stroke allowance) [{class}]"),
             format!(
                 "changed pixels (y,x) {:?} lie outside allowed half-open box {:?} (bbox {:?} inflated by {}); image after call {:?}{}",
                 outside,
@@ -1117,7 +1122,7 @@ pub fn run(ctx: Ctx) -> ! {
         vec![
             "a panic inside a drawing primitive is an observation, not a verdict (statement constrains which pixels change); pixels changed before the panic are still checked".into(),
             "a drawing call that does not return within the watchdog is an observation; its pixels cannot be inspected".into(),
-            "bounding box of a line/polygon = closed box of its vertices; of a rect = [min(top,bottom),max) x [min(left,right),max); inflated by the stroke width on every side (0 for fill_rect and fill_iter)".into(),
+            "bounding box of a line/polygon = closed box of its vertices; of a rect = [min(top,bottom),max) x [min(left,right),max); inflated on every side by the stroke width for stroke_rect and for lines/polygon outlines of width >= 2, by 0 for fill_rect, fill_iter and lines/outlines of width <= 1".into(),
             "contour adjacency is 8-adjacency to a background pixel or the image edge (4-adjacency failures are only observed)".into(),
             "External mode must return an outer contour for every component that is 4-adjacent to the background region connected to the outside; components enclosed by another component are not required".into(),
             "outer-border pixels of a component = its pixels 4-adjacent to the part of its complement that is 4-connected to the outside (padded frame)".into(),
